@@ -349,6 +349,50 @@ func init() {
 		"math/bits.OnesCount": func(st *State, f *Frame, c *ssa.Call, a []Value) {
 			ret(st, f, PopCount64(a[0].(*Term)))
 		},
+		// encoding/json for fixed arrays of unsigned integers: an abstract lossless
+		// encoding (the words, little endian, in a tagged byte block). JSON syntax is
+		// trusted; what is decided is the arche code around the two calls.
+		"encoding/json.Marshal": func(st *State, f *Frame, c *ssa.Call, a []Value) {
+			i, ok := a[0].(Iface)
+			var arr *types.Array
+			if ok && i.T != nil {
+				arr, _ = i.T.Underlying().(*types.Array)
+			}
+			vals, isS := i.V.(Struct)
+			if arr == nil || !isS {
+				st.fail("encoding/json.Marshal: only arrays of integers are modelled")
+				abort()
+			}
+			es := sizeof(arr.Elem())
+			b := st.newBlock(arr.Len()*es, types.Typ[types.Uint8], arr.Len()*es, BHeap)
+			st.blocks[b].Name = "json " + arr.String()
+			for k := int64(0); k < arr.Len(); k++ {
+				st.Store(Ptr{Blk: b, Off: k * es}, arr.Elem(), vals[k])
+			}
+			ret(st, f, Tuple{Slice{P: Ptr{Blk: b}, Len: arr.Len() * es, Cap: arr.Len() * es}, Iface{}})
+		},
+		"encoding/json.Unmarshal": func(st *State, f *Frame, c *ssa.Call, a []Value) {
+			data := a[0].(Slice)
+			i, ok := a[1].(Iface)
+			var arr *types.Array
+			var dst Ptr
+			if ok && i.T != nil {
+				if pt, isP := i.T.Underlying().(*types.Pointer); isP {
+					arr, _ = pt.Elem().Underlying().(*types.Array)
+					dst, _ = i.V.(Ptr)
+				}
+			}
+			blk := st.block(data.P.Blk)
+			if arr == nil || blk == nil || blk.Name != "json "+arr.String() || data.P.Off != 0 || data.Len != blk.Size {
+				st.fail("encoding/json.Unmarshal: only data produced by the modelled Marshal into an array of the same type is modelled")
+				abort()
+			}
+			es := sizeof(arr.Elem())
+			for k := int64(0); k < arr.Len(); k++ {
+				st.Store(Ptr{Blk: dst.Blk, Off: dst.Off + k*es}, arr.Elem(), st.Load(Ptr{Blk: data.P.Blk, Off: k * es}, arr.Elem()))
+			}
+			ret(st, f, Iface{})
+		},
 		"math/bits.TrailingZeros64": func(st *State, f *Frame, c *ssa.Call, a []Value) {
 			x := a[0].(*Term)
 			r := C(64, 64)
